@@ -347,7 +347,8 @@ Proof. exact exists_in_without_rule_refuted. Qed.
 (* FULL STATEMENT AIMED AT (C11_quote_roundtrip): for every valid UTF-8 v, EVERY style st of ModelLex.render (double,
    single, back quote with the spliced double-quoted back quote, bare, double with any escape choices) and the legacy
    quoted form, at every position of a query, lexing `render st v` yields the literal whose term list is [text v].
-   PROVED below for the double- and the single-quoted style (ParseSeqQL); the back-quoted, bare and escape-choice
+   PROVED below for the double- and the single-quoted style (ParseSeqQL) and, at lexer level, for the back-quoted
+   style on values without a back quote; the spliced back-quoted form, the bare and escape-choice
    styles and the legacy scanner (ModelLex.quoted_terms / bare_terms) are modelled and executed against the real
    lexer / parsers on every run (classes lex, qtext, roundtrip), their round trip is NOT proved.
 
@@ -368,6 +369,15 @@ Theorem C11_quote_roundtrip_partial :
     next go_is_space go_is_letter go_is_digit (S fuel) (render_q q v ++ rest) sp = ROk (mkTok v true false sp, rest).
 Proof. exact go_next_render_q. Qed.
 Print Assumptions C11_quote_roundtrip_partial.
+
+(* The back-quoted style, for EVERY byte string without a back quote (valid UTF-8 or not: raw strings are not
+   unescaped, an asterisk stays an asterisk): one quoted raw token whose text is v, at any position. (A value WITH back
+   quotes is rendered as several tokens spliced with a double-quoted back quote; that composite is not proved.) *)
+Theorem C11_quote_roundtrip_raw_partial :
+  forall v rest sp fuel, contains_byte 96 v = false ->
+    next go_is_space go_is_letter go_is_digit (S fuel) (render_raw v ++ rest) sp = ROk (mkTok v true true sp, rest).
+Proof. exact go_next_render_raw. Qed.
+Print Assumptions C11_quote_roundtrip_raw_partial.
 
 (* The whole way for the plain form `name:<literal>`: ParseSeqQL's model (lexer, composite token, field filter, case
    rule, parseSeqQLKeyword / parseSeqQLText) on the TEXT gives the literals the term-level model makes of v itself.
